@@ -1365,18 +1365,163 @@ Section Family.
     intros V1. unfold the_path, mid.
     assert (LN : lookup NT (s_vals s1) = Some vn) by (rewrite V1; apply (vals0_NT Hvn)).
     destruct (inkey_cases csel Hsel) as [[Q _]|[Q _]].
-    - rewrite Q. unfold AT at 1. cbn [app]. unfold NT, AT in *. cbn [walk_f].
+    - rewrite Q. unfold AT at 1. cbn [app]. set (tl := CS :: otail). unfold NT, AT in *. cbn [walk_f].
       cbn [set_last set_val set_vals s_vals s_last s_trace]. rewrite LN.
       cbn [set_last set_val set_vals s_vals s_last s_trace].
       rewrite vn_ty. unfold assignable. rewrite Z.eqb_refl. cbn [orb].
       cbn [set_last set_val set_vals s_vals s_last s_trace].
-      intros W. apply walk_conv in W.
-      + exact W.
-      + rewrite Q. unfold AT. cbn [set_val set_vals s_vals set_last]. rewrite lookup_insert, Base.eqb_refl. reflexivity.
-    - rewrite Q. unfold NT at 2. cbn [app]. unfold NT in *. cbn [walk_f].
+      intros W.
+      assert (Lk' : lookup (inkey csel) (s_vals (set_val (set_last s1 (Some vn)) (KArg T EmptyString) (Some vn))) = Some vn).
+      { rewrite Q. unfold AT. cbn [set_val set_vals s_vals set_last]. rewrite lookup_insert, Base.eqb_refl. reflexivity. }
+      exact (@walk_conv _ _ _ _ _ _ Lk' W).
+    - rewrite Q. unfold NT at 2. cbn [app]. set (tl := CS :: otail). unfold NT in *. cbn [walk_f].
       cbn [set_last set_val set_vals s_vals s_last s_trace]. rewrite LN.
-      intros W. apply walk_conv in W.
-      + exact W.
-      + rewrite Q. unfold NT. cbn [set_last s_vals]. exact LN.
+      intros W.
+      assert (Lk' : lookup (inkey csel) (s_vals (set_last s1 (Some vn))) = Some vn).
+      { rewrite Q. unfold NT. cbn [set_last s_vals]. exact LN. }
+      exact (@walk_conv _ _ _ _ _ _ Lk' W).
+  Qed.
+
+  (* ---------- reachTarget on the target, and the call ---------- *)
+  Definition trace_ok (tr : list event) : Prop :=
+    exists outs err,
+      tr = [EExec (fn_id csel) [mkV (v_id vn) T] outs err] \/
+      exists a o e, tr = [EExec (fn_id csel) [mkV (v_id vn) T] outs err; EExec (fn_id f) a o e].
+
+  Lemma reach_top fuel'' s0 s r :
+    s_vals s0 = vals0 -> s_inprog s0 = [] -> s_trace s0 = [] ->
+    reach u bh PG false (S (S fuel'')) fk s0 = Ok (s, r) ->
+    exists outs err, s_trace s = [EExec (fn_id csel) [mkV (v_id vn) T] outs err].
+  Proof.
+    intros V0 P0 T0. rewrite reach_S. unfold reach_body. rewrite PG_out_fk, P0.
+    destruct (take_perm SITE_REACH_OUT [NU] (s_tape (set_inprog s0 [fk]))) as [[outs t1]| | |] eqn:TP;
+      cbn [bind]; try discriminate.
+    apply take_perm_single in TP. subst outs.
+    unfold C0213UnsatReach.classify. cbn [fold_left].
+    set (s1 := set_tape (set_inprog s0 [fk]) t1).
+    assert (V1 : s_vals s1 = vals0) by exact V0.
+    assert (T1 : s_trace s1 = []) by exact T0.
+    assert (P1 : s_inprog s1 = [fk]) by reflexivity.
+    unfold NU at 1 2. fold NU. rewrite V1, vals0_NU. cbn [app].
+    unfold plans. cbn [fold_left bind].
+    destruct (plan PG false NU s1) as [[[path bad] s2]| | |] eqn:PL; cbn [bind]; try discriminate.
+    destruct (@plan_eq s1 path bad s2 PL) as (-> & -> & t2 & ->).
+    assert (B : existsb (fun v => memb v (s_inprog s1)) the_path = false).
+    { destruct (existsb (fun v => memb v (s_inprog s1)) the_path) eqn:B; [|reflexivity].
+      apply existsb_exists in B. destruct B as (v & Iv & Mv). rewrite P1 in Mv. cbn [memb] in Mv.
+      rewrite orb_false_r in Mv. apply veqb_true in Mv. exfalso. apply (@the_path_no_fk v Iv Mv). }
+    rewrite B. cbn [app walk_paths_f].
+    set (s2 := add_input (set_tape s1 t2) NT).
+    destruct (walk_f u bh PG false (reach u bh PG false (S fuel'')) None the_path None s2) as [[s3 r3]| | |] eqn:W;
+      cbn [bind]; try discriminate.
+    assert (V2 : s_vals s2 = vals0) by exact V1.
+    destruct (@walk_path fuel'' s2 s3 r3 V2 W) as ((outs & err & Tr) & Gr).
+    assert (T2 : s_trace s2 = []) by exact T1. rewrite T2 in Tr. cbn [app] in Tr.
+    destruct r3 as [[fv|]|e].
+    - intros X. inversion X. exists outs, err. exact Tr.
+    - destruct Gr.
+    - intros X. inversion X. exists outs, err. exact Tr.
+  Qed.
+
+  Theorem call_family opts t r :
+    build_args [] opts = Some bd ->
+    call u bh f [] opts world0 t = Ok r -> trace_ok (run_trace r).
+  Proof.
+    intros HB. rewrite (call_unfold u bh f [] opts world0 t HB (full_graph_eq t)), prune_eq.
+    unfold fuel_of. cbn [cg_g CG cg_target].
+    pose proof PG_keys_ge as Ge.
+    destruct (List.length (g_vertex_keys PG)) as [|k2] eqn:El; [lia|].
+    destruct (reach u bh PG false (S (S k2)) fk (init_state (CG t) world0)) as [[s r0]| | |] eqn:R;
+      cbn [bind]; try discriminate.
+    destruct (@reach_top k2 (init_state (CG t) world0) s r0 eq_refl eq_refl eq_refl R) as (outs & err & Tr).
+    destruct r0 as [am|e].
+    - destruct (call_direct u bh false f am s) as [[res s']| | |] eqn:CD; cbn [bind]; try discriminate.
+      intros X. inversion X. cbn [run_trace].
+      destruct (@call_direct_cases u bh f am s res s' CD) as [(_ & _ & ->)|[(_ & ->)|(_ & _ & _ & _ & a & o & e & Tr')]].
+      + exists outs, err. left. exact Tr.
+      + exists outs, err. left. exact Tr.
+      + exists outs, err. right. exists a, o, e. rewrite Tr', Tr. reflexivity.
+    - intros X. inversion X. cbn [run_trace]. exists outs, err. left. exact Tr.
+  Qed.
+
+  (* ---------- the search selects the converter: F1 and F2 ---------- *)
+  Lemma reach_NT : GraphSpec.reach HH KRoot NT.
+  Proof.
+    destruct named_n as (vn0 & In').
+    assert (R0 : GraphSpec.reach HH KRoot KRoot) by (exists [KRoot], 0; constructor; apply HH_root).
+    apply (reach_edge R0 (proj1 (HH_isin n vn0 In'))).
+  Qed.
+
+  Lemma reach_inkey c : In c cs -> GraphSpec.reach HH KRoot (inkey c).
+  Proof.
+    intros Ic. destruct (inkey_cases c Ic) as [[Q _]|[Q _]]; rewrite Q; [|exact reach_NT].
+    apply (reach_edge reach_NT HH_NA).
+  Qed.
+
+  Lemma prev_conv p c : fin_facts HH KRoot p -> In c cs -> lookup (KFunc (fn_type c)) p = Some (inkey c).
+  Proof.
+    intros (_ & Pe & Pr) Ic.
+    assert (RC : GraphSpec.reach HH KRoot (KFunc (fn_type c))) by (apply (reach_edge (reach_inkey c Ic) (HH_c_edge c Ic))).
+    destruct (Pr _ RC ltac:(discriminate)) as (x & Q). destruct (Pe _ _ Q) as (w & Ed).
+    destruct (HH_c_in c Ic Ed) as [-> _]. exact Q.
+  Qed.
+
+  Lemma sel_F1 : cs = [csel] ->
+    forall pops d p, dijkstra HH KRoot pops = Ok (d, p) -> selected p /\ fin_facts HH KRoot p.
+  Proof.
+    intros Ecs pops d p Dj.
+    destruct (@aff1_dijkstra vkey _ vpay HH KRoot HH_wf HH_root HH_wbound HH_small HH_src_in NT AT) with (pops := pops) (d := d) (p := p)
+      as [PA FF].
+    - destruct named_n as (vn0 & In'). apply (HH_isin n vn0 In').
+    - apply HH_A_in.
+    - apply HH_NA.
+    - exact Dj.
+    - split; [|exact FF]. split; [|split; [apply (@prev_conv p csel FF Hsel)|intros _; exact PA]].
+      destruct FF as (P0 & Pe & Pr).
+      assert (RO : GraphSpec.reach HH KRoot OO).
+      { apply (reach_edge (reach_edge (reach_inkey csel Hsel) (HH_c_edge csel Hsel)) (HH_OO_edge csel Hsel)). }
+      assert (NO : OO <> KRoot) by (destruct OO_cases as [(_ & Q & _)|(_ & Q & _)]; rewrite Q; discriminate).
+      destruct (Pr _ RO NO) as (x & Q). destruct (Pe _ _ Q) as (w & Ed).
+      destruct (HH_OO_in Ed) as (c & Ic & -> & _). rewrite Ecs in Ic. destruct Ic as [<-|[]]. exact Q.
+  Qed.
+
+  Lemma isn_NT : isn n NT = true.
+  Proof. cbn [isn NT]. apply String.eqb_refl. Qed.
+
+  Lemma sel_F2 cother :
+    In cother cs -> (forall c, In c cs -> c = csel \/ c = cother) ->
+    inkey csel = NT -> inkey cother = AT ->
+    forall pops d p, dijkstra HH KRoot pops = Ok (d, p) -> selected p /\ fin_facts HH KRoot p.
+  Proof.
+    intros Io Hall Qs Qo pops d p Dj.
+    assert (Ty : fn_type csel <> fn_type cother).
+    { intros E. pose proof (@NoDup_map_inj _ _ fn_type cs csel cother Hcnd Hsel Io E) as X.
+      rewrite X in Qs. rewrite Qs in Qo. discriminate. }
+    assert (Wo : 1 <= wo <= 5).
+    { destruct OO_cases as [(_ & _ & Q)|(_ & _ & Q)]; rewrite Q; unfold w_typed, w_normal; lia. }
+    assert (Wc : inw cother = 5).
+    { destruct (inkey_cases cother Io) as [[_ Q]|[Q _]]; [exact Q|]. rewrite Q in Qo. discriminate. }
+    destruct (@aff2_dijkstra vkey _ vpay HH KRoot HH_wf HH_root HH_wbound HH_small HH_src_in NT AT) with
+      (D := CS) (C := KFunc (fn_type cother)) (O := OO) (wo := wo) (pops := pops) (d := d) (p := p)
+      as (PO & PD & FF).
+    - destruct named_n as (vn0 & In'). apply (HH_isin n vn0 In').
+    - apply HH_A_in.
+    - apply HH_NA.
+    - exact Wo.
+    - intros a w Ed. destruct (HH_c_in csel Hsel Ed) as [-> ->]. rewrite Qs, isn_NT. split; reflexivity.
+    - pose proof (HH_c_edge csel Hsel) as Ed. rewrite Qs, isn_NT in Ed. exact Ed.
+    - intros a w Ed. destruct (HH_c_in cother Io Ed) as [-> ->]. rewrite Qo. cbn [isn AT]. split; [reflexivity|exact Wc].
+    - pose proof (HH_c_edge cother Io) as Ed. rewrite Qo in Ed. cbn [isn AT] in Ed. rewrite Wc in Ed. exact Ed.
+    - intros a w Ed. destruct (HH_OO_in Ed) as (c & Ic & -> & ->). split; [|reflexivity].
+      destruct (Hall c Ic) as [->| ->]; [right|left]; reflexivity.
+    - apply (HH_OO_edge csel Hsel).
+    - assert (N1 : OO <> KRoot /\ OO <> NT /\ OO <> AT /\ OO <> CS /\ OO <> KFunc (fn_type cother)).
+      { pose proof NU_ne_NT. destruct OO_cases as [(_ & Q & _)|(_ & Q & _)]; rewrite Q; repeat split; try discriminate. assumption. }
+      destruct N1 as (N1 & N2 & N3 & N4 & N5).
+      assert (N6 : CS <> KFunc (fn_type cother)) by (unfold CS; intros X; inversion X; contradiction).
+      repeat constructor; simpl; intuition (try discriminate; try congruence).
+    - exact Dj.
+    - split; [|exact FF]. split; [exact PO|]. split; [rewrite Qs; exact PD|].
+      intros E. rewrite Qs in E. discriminate.
   Qed.
 End Family.
